@@ -398,8 +398,10 @@ def gen_history(rng):
         longer[k] = float(F(s[k]) + rng.choice([0, 10, 40]) * rr)
     steps = []
     for _ in range(rng.randint(2, 5)):
-        k = rng.choice(['add', 'set', 'read', 'read', 'dedup', 'system', 'check'])
-        if k == 'read':
+        k = rng.choice(['add', 'set', 'read', 'read', 'dedup', 'system', 'check', 'redur', 'redur'])
+        if k == 'redur':
+            steps.append([k, rng.randint(0, 10 ** 6), rng.choice([0, 0, 1, 2, 5])])
+        elif k == 'read':
             steps.append([k, {'remove_duplicates': rng.random() < 0.5, 'detect_rf_use': rng.random() < 0.4}])
         elif k in ('add', 'set'):
             steps.append([k, rng.randint(0, 10 ** 6), copy.deepcopy(rng.choice(pool['blocks']))])
@@ -473,6 +475,27 @@ def evaluate_history(ctx, case):
                         fresh = pp.Sequence(seq.system, use_block_cache=case.get('cache', True))
                         fresh.read(fn, **ropt)
                         fresh_rep = (fresh.check_timing()[0], tg.norm_report(fresh.check_timing()[1]))
+                elif k == 'redur':
+                    # an already decoded block is overwritten with the SAME events (handed over by their library ids) and
+                    # another explicit delay: only the stored duration changes (shorter or longer)
+                    ids = list(seq.block_events)
+                    bid = ids[st[1] % len(ids)]
+                    row = seq.block_events[bid]
+                    old = seq.block_durations[bid]
+                    blk = seq.get_block(bid)
+                    evs = []
+                    for name, col in (('rf', 1), ('gx', 2), ('gy', 3), ('gz', 4), ('adc', 5)):
+                        e = getattr(blk, name)
+                        if e is not None:
+                            e2 = copy.copy(e)
+                            e2.id = int(row[col])
+                            evs.append(e2)
+                    content = max([pp.calc_duration(e) for e in evs] + [0.0])
+                    br = seq.system.block_duration_raster
+                    newd = (max(1, math.ceil(content / br - 1e-6)) + st[2]) * br
+                    if abs(newd - old) < br / 2:
+                        newd += br
+                    seq.set_block(bid, *evs, pp.make_delay(newd))
                 elif k == 'dedup':
                     seq.remove_duplicates(in_place=True)
                 elif k == 'system':
